@@ -49,7 +49,7 @@ func (i item) String() string {
 	case kTimeout:
 		return "Timeout"
 	case kTemp:
-		return "TempErr"
+		return "TempErr(" + tempErrs[i.term].Error() + ")"
 	}
 	return "Term(" + terminals[i.term].Error() + ")"
 }
@@ -61,6 +61,16 @@ func (timeoutErr) Timeout() bool   { return true }
 func (timeoutErr) Temporary() bool { return true }
 
 var errTemp = errors.New("temporary glitch")
+
+// a temporary network error that is not a timeout
+type tempNetErr struct{}
+
+func (tempNetErr) Error() string   { return "temporary network error" }
+func (tempNetErr) Timeout() bool   { return false }
+func (tempNetErr) Temporary() bool { return true }
+
+// the transient (non-terminal, non-timeout) errors of the script alphabet; item.term selects one
+var tempErrs = []error{errTemp, tempNetErr{}, syscall.EINTR}
 
 var terminals = []error{io.EOF, io.ErrUnexpectedEOF, errors.New("read |0: use of closed file"), io.ErrNoProgress, io.ErrClosedPipe, io.ErrShortBuffer, syscall.EBADF, fmt.Errorf("wrapped: %w", io.EOF)}
 
@@ -137,7 +147,7 @@ func (s *source) read() ([]byte, gopacket.CaptureInfo, error) {
 	case kTimeout:
 		return nil, gopacket.CaptureInfo{}, timeoutErr{}
 	case kTemp:
-		return nil, gopacket.CaptureInfo{}, errTemp
+		return nil, gopacket.CaptureInfo{}, tempErrs[it.term]
 	}
 	return nil, gopacket.CaptureInfo{}, terminals[it.term]
 }
@@ -460,7 +470,7 @@ func (s *seqSource) ReadPacketData() ([]byte, gopacket.CaptureInfo, error) {
 	case kTimeout:
 		return nil, gopacket.CaptureInfo{}, timeoutErr{}
 	case kTemp:
-		return nil, gopacket.CaptureInfo{}, errTemp
+		return nil, gopacket.CaptureInfo{}, tempErrs[it.term]
 	}
 	return nil, gopacket.CaptureInfo{}, terminals[it.term]
 }
@@ -506,7 +516,7 @@ func checkPull(r *report.Run, script []item, cfg config, idx int64) int64 {
 			case kTimeout:
 				want = timeoutErr{}
 			case kTemp:
-				want = errTemp
+				want = tempErrs[it.term]
 			default:
 				want = terminals[it.term]
 			}
@@ -583,7 +593,7 @@ func checkConcat(r *report.Run, script []item, idx int64) int64 {
 						why = fmt.Sprintf("timeout item gave err %v", err)
 					}
 				case kTemp:
-					if err != errTemp {
+					if err != tempErrs[it.term] {
 						why = fmt.Sprintf("transient item gave err %v", err)
 					}
 				}
@@ -613,8 +623,11 @@ func scripts(maxItems int, nterm int) [][]item {
 		if len(p) == maxItems {
 			return
 		}
-		for _, k := range []kind{kPkt, kPktTrunc, kTimeout, kTemp} {
+		for _, k := range []kind{kPkt, kPktTrunc, kTimeout} {
 			rec(append(p, item{k: k}))
+		}
+		for ti := range tempErrs {
+			rec(append(p, item{k: kTemp, term: ti}))
 		}
 	}
 	rec(nil)
